@@ -36,6 +36,7 @@ type Fault struct {
 	At       int    `json:"at"`
 	WithData bool   `json:"with_data,omitempty"` // the error accompanies the last bytes (n>0, err) instead of following them (0, err)
 	Err      string `json:"err,omitempty"`       // "" = custom error, "unexpected-eof" = io.ErrUnexpectedEOF
+	Then     string `json:"then,omitempty"`      // what later reads return: "" = the same error again, "eof" = io.EOF (the contract leaves it open)
 }
 
 var errInjected = errors.New("injected reader failure")
@@ -54,6 +55,7 @@ type schedReader struct {
 	s     *Sched
 	idx   int
 	fault Fault
+	erred bool
 }
 
 func (r *schedReader) nextSize() int {
@@ -81,7 +83,8 @@ func (r *schedReader) Read(p []byte) (int, error) {
 	}
 	faulty := r.fault.At >= 0 && r.fault.At <= len(r.doc)
 	if r.pos >= limit {
-		if faulty {
+		if faulty && !(r.erred && r.fault.Then == "eof") {
+			r.erred = true
 			return 0, r.fault.error()
 		}
 		return 0, io.EOF
@@ -98,6 +101,7 @@ func (r *schedReader) Read(p []byte) (int, error) {
 	r.pos += n
 	if r.pos == limit {
 		if faulty && r.fault.WithData {
+			r.erred = true
 			return n, r.fault.error()
 		}
 		if !faulty && r.s != nil && r.s.EOFWithData {
